@@ -46,6 +46,13 @@ def PErr.display : PErr → Name
   | .attr m => m
   | .noRoot => cl!"invalid XML, no root element found"
 
+/-- what the error value carries, whatever `Display` prints: the variant with the reader's error and byte position -/
+def PErr.carried : PErr → Name
+  | .quickXml p m => cl!"Q|" ++ dec p ++ cl!"|" ++ m
+  | .utf8 m => cl!"U|" ++ m
+  | .attr m => cl!"A|" ++ m
+  | .noRoot => cl!"P"
+
 /-- the attribute loops of `parse_tag` (parser.rs:211-216, 235-240) -/
 def attrKeys : List AttrItem → Except PErr (List Name)
   | [] => .ok []
